@@ -28,8 +28,14 @@ ASSUMPTIONS = [
 ]
 
 
-LEVELS = {"C17": "other"}
+# "other": the contract kernel of the property is thin (or syntactic) and most of its surface is covered by labelled bounded
+# stand-ins; "proof": the kernel is the property's core and every obligation is discharged deductively
+LEVELS = {"C17": "other", "C09": "other", "C10": "other", "C11": "other", "C16": "other", "C13": "other", "C15": "other"}
+_THIN = ("the contract kernel listed under functions_under_contract is a small part of this property's surface: its obligations are all discharged "
+         "(back ends listed), and the rest of the property is explored by the bounded stand-ins listed under `bounded` (evaluations / distinct_nontrivial "
+         "count those cases only; they are never added to obligations / discharged)")
 EXPLAIN = {
+    "C09": _THIN, "C10": _THIN, "C11": _THIN, "C13": _THIN, "C15": _THIN, "C16": _THIN,
     "C17": "rng-frame obligations (one per seeded function, discharged syntactically and modularly by rngcheck) + native double-run stand-in; determinism itself rests on the assumed contracts of the random/numpy/networkx/scipy generators",
 }
 
@@ -43,12 +49,12 @@ def _load():
 
 def _task(t):
     """One (function, mode, subtree) unit of work."""
-    qual, variant, pid, timeout_ms, k, mode, root, budget, skip = t
+    qual, variant, pid, timeout_ms, k, mode, root, budget, skip, cpu_limit = t
     try:
         _load()
         from pyvc.run import verify_one
         return verify_one(qual, mode=mode, timeout_ms=timeout_ms, variant=variant, k=k, only_props=[pid],
-                          root=root, budget=budget, skip=skip)
+                          root=root, budget=budget, skip=skip, cpu_limit=cpu_limit)
     except Exception as e:  # noqa
         return dict(qual=qual, mode=mode, obligations=[], error="checker-error: %s\n%s" % (e, traceback.format_exc()),
                     secs=0.0, stats={}, variant=variant, leftover=[], root=root)
@@ -122,7 +128,7 @@ class Farm:
                 elif not p.is_alive():
                     self.running.remove(ent)
                     progressed = True
-                    if tries < 1:
+                    if tries < 2:  # a worker that died (z3 crash) is retried twice; verdicts only ever come from finished tasks
                         self.submit(fn, arg, tag, tries + 1)
                     else:
                         yield tag, arg, {"farm_error": "worker died (exit code %s)" % p.exitcode}
@@ -149,7 +155,7 @@ def explore(farm, tasks, pid, timeout_ms, k, mode, skipmap=None, budget=10):
     def submit(q, v, root, bud):
         key = (q, json.dumps(v, sort_keys=True))
         skip = list((skipmap or {}).get(key, ()))
-        farm.submit(_task, (q, v, pid, timeout_ms, k, mode, root, bud, skip), tag=("explore", mode))
+        farm.submit(_task, (q, v, pid, timeout_ms, k, mode, root, bud, skip, 0.55 * farm.deadline), tag=("explore", mode))
 
     for q, v in tasks:
         submit(q, v, None, budget)
@@ -180,7 +186,7 @@ def _bounded_task(t):
     try:
         _load()
         from pyvc.bounded import run_bounded
-        r = run_bounded(REGISTRY[qual], props=props, variant=variant, limit=limit, seed=seed, budget_s=25 if limit <= 50 else 600)
+        r = run_bounded(REGISTRY[qual], props=props, variant=variant, limit=limit, seed=seed, budget_s=25 if limit <= 100 else 600)
         r["qual"] = qual
         r["variant"] = variant
         return r
@@ -290,7 +296,7 @@ def run_property(pid, tier="quick", seed=0, extra=None):
     slow = max([getattr(REGISTRY[q], "timeout_ms", 0) or 0 for q, v in tasks] + [0])
     farm = Farm(16, deadline=max(100, 4 * slow // 1000) if tier == "quick" else 1200)
     # bounded stand-in: the same contracts evaluated on the real code over small inputs
-    blimit = 30 if tier == "quick" else 400
+    blimit = 60 if tier == "quick" else 400
     for q, v in tasks:
         farm.submit(_bounded_task, (q, v, [pid], blimit, seed), tag=("bounded",))
     # ground mode first (counter-models in milliseconds); an obligation refuted there is not
@@ -414,6 +420,15 @@ def run_property(pid, tier="quick", seed=0, extra=None):
                         break
                     if reproduced:
                         break
+        if not reproduced and o.get("abstracted"):
+            # counter-model on a path that went through an abstracted (opaque) statement and no real input reproduces it:
+            # undecided, not a violation (DESIGN 11.7)
+            o["status"] = "unknown"
+            o["reason"] = "refuted only under abstraction of an unmodelled statement; no real input reproduces it"
+            undecided.append(o)
+            if o in refuted:
+                refuted.remove(o)
+            continue
         ridx += 1
         path = write_replay(pid, ridx, spec, o.get("variant"), o, case if reproduced else None, outcome if reproduced else None, failed, reproduced)
         violations.append((o, path, reproduced, case, failed))
@@ -496,6 +511,13 @@ def run_property(pid, tier="quick", seed=0, extra=None):
     # evidence/ describes runs against /repo itself; a run against a scratch copy (PYVC_REPO, used to try seeded changes)
     # writes under out/ so that it can never be mistaken for (or committed as) evidence about the real tree
     evdir = os.path.join(ROOT, "evidence") if os.path.realpath(extract.REPO) == "/repo" else os.path.join(ROOT, "out", "evidence-scratch")
+    if bounded_list:
+        # exploration-style counts of the bounded stand-ins (kept apart from obligations / discharged)
+        ev["coverage"]["evaluations"] = int(sum(b.get("cases", 0) or 0 for b in bounded_list))
+        ev["coverage"]["distinct_nontrivial"] = int(sum((b.get("distinct") or b.get("cases") or 0) for b in bounded_list))
+        ev["coverage"]["rule"] = ("bounded stand-ins only (never counted as discharged): one case = one (assertion, concrete network / parameter tuple) pair "
+                                  "evaluated on the real function; distinct = different assertion kind or different concrete input; inputs are enumerated "
+                                  "exhaustively up to the stated bound plus seeded random ones, every one has at least one call of the function under test")
     os.makedirs(evdir, exist_ok=True)
     with open(os.path.join(evdir, "%s.json" % pid), "w") as f:
         json.dump(ev, f, indent=1)
